@@ -821,6 +821,246 @@ Proof. exact BezierIEEECurve.curve_L1_bounded. Qed.
 Print Assumptions C01_T01g_curve_bounded.
 
 (* ------------------------------------------------------------------ *)
+(* LAYERS (1+)2+3, "hang", for whole files                              *)
+(* The fuel-bearing loops on the decode path, and where each is closed: *)
+(*   reader: read_until / read_exact / read_bom / read_extra /           *)
+(*     read_line_loop / lines_loop -- never out of fuel, for every stream *)
+(*     and schedule ([C01_read_line_loop_total],                          *)
+(*     [C01_faultless_reader_never_fails]); the UTF-8 lossy loop          *)
+(*     (EncodingFacts.decode_utf8_lossy_spec, inside those);              *)
+(*   framing: the outer `loop` of decode ([C01_framing_fuel]);            *)
+(*   hit-object line: the two index loops of convert_path_str /           *)
+(*     convert_points (fuel = length + 1; [C01_no_panic_hit_object_line]  *)
+(*     returns Done for every state and line);                            *)
+(*   binary searches of ControlPoints: structural (no outcome);           *)
+(*   curve: the theta loop ([C01_theta_loop_terminates], under            *)
+(*     [atan2_in_range]) and the Bezier subdivision -- the only one left  *)
+(*     ([C01_curve_fails_only_in_bezier], [C01_decode_never_panics]).     *)
+(* So a decode returns a value as soon as every slider curve it computes  *)
+(* is inside [C01_T01g_curve_bounded].  That is a fact about the PARSER:  *)
+
+From RM Require Proofs.DecodeTerminatesPoints Proofs.DecodeTerminates Proofs.DecodeTerminatesLines
+     Proofs.DecodeTerminatesExamples.
+
+Example pin_max_coordinate_value : max_coordinate_value = 131072.
+Proof. reflexivity. Qed.
+
+(* the hit objects the parsers have collected after a list of lines (the
+   state the finishing conversion starts from) *)
+Example C01_parsed_means :
+  forall lines,
+  DecodeTerminates.ho_parsed lines =
+    match state_after (fun _ => Done hod_create) ho_parsers lines with
+    | Done s => hod_objects s | _ => [] end /\
+  DecodeTerminates.bm_parsed lines =
+    match state_after (fun v => Done (bmd_create v)) bm_parsers lines with
+    | Done s => hod_objects (bmd_ho s) | _ => [] end /\
+  (forall dist_of,
+     decode_hit_objects dist_of lines
+       = obind (state_after (fun _ => Done hod_create) ho_parsers lines) (hod_finish dist_of) /\
+     decode_beatmap dist_of lines
+       = obind (state_after (fun v => Done (bmd_create v)) bm_parsers lines) (bmd_finish dist_of)).
+Proof.
+  intros lines. split; [reflexivity|]. split; [reflexivity|]. intros dist_of.
+  exact (conj (DecodeTerminates.decode_hit_objects_state dist_of lines)
+              (DecodeTerminates.decode_beatmap_state dist_of lines)).
+Qed.
+
+(* PARSER BOUND.  After ANY list of lines (rejected and malformed lines
+   included), every control point of every slider the parsers hold is finite
+   and within +-2^18 = 2 * MAX_COORDINATE_VALUE in both coordinates: the head
+   and the absolute point are integers within +-131072, their binary32
+   difference is exact.  ([obj_points_ok E h]: every control point of a slider
+   h is [BezierIEEE.point_ok E] after the conversion to the curve's points.) *)
+Theorem C01_parsed_control_points_bounded :
+  forall lines,
+  Forall (DecodeTerminates.obj_points_ok 18) (DecodeTerminates.ho_parsed lines) /\
+  Forall (DecodeTerminates.obj_points_ok 18) (DecodeTerminates.bm_parsed lines).
+Proof. exact DecodeTerminates.parsed_points_ok. Qed.
+Print Assumptions C01_parsed_control_points_bounded.
+
+Example C01_obj_points_ok_means :
+  forall E h,
+  DecodeTerminates.obj_points_ok E h =
+  match h_kind h with
+  | KSlider s => Forall (fun p => BezierIEEE.point_ok E (conv_pos (cp_pos p))) (sl_control_points s)
+  | _ => True
+  end.
+Proof. reflexivity. Qed.
+
+(* ... and it is carried through the finishing conversion (stable sort, break
+   pass, per-object loop): the same of every decoded value, for any [dist_of] *)
+Theorem C01_decoded_control_points_bounded :
+  forall dist_of lines,
+  (forall hv, decode_hit_objects dist_of lines = Done hv ->
+     Forall (DecodeTerminates.obj_points_ok 18) (hov_hit_objects hv)) /\
+  (forall bv, decode_beatmap dist_of lines = Done bv ->
+     Forall (DecodeTerminates.obj_points_ok 18) (hov_hit_objects (bmv_ho bv))).
+Proof.
+  intros dist_of lines.
+  exact (conj (DecodeTerminates.decoded_points_ok_hit_objects dist_of lines)
+              (DecodeTerminates.decoded_points_ok_beatmap dist_of lines)).
+Qed.
+Print Assumptions C01_decoded_control_points_bounded.
+
+(* the conditions on a slider of the parser state are booleans; as propositions: *)
+Example C01_obj_cps_le_means :
+  forall n h,
+  DecodeTerminates.obj_cps_le n h = true <->
+  match h_kind h with KSlider s => (length (sl_control_points s) <= n)%nat | _ => True end.
+Proof. exact DecodeTerminates.obj_cps_le_spec. Qed.
+
+Example C01_obj_fits_means :
+  forall h,
+  DecodeTerminates.obj_fits_some h = true <->
+  exists E,
+  match h_kind h with
+  | KSlider s =>
+      0 <= E <= 22 /\ Z.of_nat (length (sl_control_points s)) * 2 ^ E <= 2 ^ 22 /\
+      Forall (fun p => Z.abs (f32_as_i32 (px (cp_pos p))) <= 2 ^ E /\
+                       Z.abs (f32_as_i32 (py (cp_pos p))) <= 2 ^ E) (sl_control_points s)
+  | _ => True
+  end.
+Proof.
+  intros h. rewrite DecodeTerminates.obj_fits_some_spec.
+  split; intros (E & H); exists E; apply DecodeTerminates.obj_fits_spec; exact H.
+Qed.
+
+(* DECODE TERMINATES (never OutOfFuel, never Panic, with the pinned fuels):
+   every list of lines in which every parsed slider has at most 16 control
+   points -- anywhere in the parser's coordinate range -- decodes to a value,
+   for both decoders that compute curves, for every libm record whose atan2
+   has its values in [-PI, PI] (or NaN). *)
+Theorem C01_decode_terminates_bounded :
+  forall lm, ThetaLoop.atan2_in_range lm -> forall lines,
+  (Forall (fun h => DecodeTerminates.obj_cps_le 16 h = true) (DecodeTerminates.ho_parsed lines) ->
+   exists hv, decode_hit_objects (dist_of_curve lm) lines = Done hv) /\
+  (Forall (fun h => DecodeTerminates.obj_cps_le 16 h = true) (DecodeTerminates.bm_parsed lines) ->
+   exists bv, decode_beatmap (dist_of_curve lm) lines = Done bv).
+Proof. exact DecodeTerminates.decode_terminates_bounded. Qed.
+Print Assumptions C01_decode_terminates_bounded.
+
+(* graded: n control points inside +-2^E of the slider head, n * 2^E <= 2^22
+   (<= 16384 within +-256, <= 1024 within +-4096, <= 64 within +-65536 ...),
+   E chosen per slider; the coordinates are read off the state *)
+Theorem C01_decode_terminates_graded :
+  forall lm, ThetaLoop.atan2_in_range lm -> forall lines,
+  (Forall (fun h => DecodeTerminates.obj_fits_some h = true) (DecodeTerminates.ho_parsed lines) ->
+   exists hv, decode_hit_objects (dist_of_curve lm) lines = Done hv) /\
+  (Forall (fun h => DecodeTerminates.obj_fits_some h = true) (DecodeTerminates.bm_parsed lines) ->
+   exists bv, decode_beatmap (dist_of_curve lm) lines = Done bv).
+Proof. exact DecodeTerminates.decode_terminates_graded. Qed.
+Print Assumptions C01_decode_terminates_graded.
+
+(* the same as a DECIDABLE CONDITION ON THE INPUT: a slider has at most as
+   many control points as its path field has `|`-separated pieces, so it is
+   enough that the sixth comma-separated field of every line of the file has at
+   most 16 pieces ([lines_fit 16]; lines of other sections and rejected lines
+   included -- a sufficient condition, checked without parsing a number) *)
+Example C01_lines_fit_means :
+  forall n lines,
+  DecodeTerminatesLines.lines_fit n lines =
+  forallb (fun line =>
+    Nat.leb (length (split_on 124 (odflt [] (nth_error (skipn 5 (split_on 44 (trim_comment line))) 0)))) n)
+    lines.
+Proof. reflexivity. Qed.
+
+Theorem C01_parsed_control_point_count :
+  forall n lines, DecodeTerminatesLines.lines_fit n lines = true ->
+  Forall (fun h => DecodeTerminates.obj_cps_le n h = true) (DecodeTerminates.ho_parsed lines) /\
+  Forall (fun h => DecodeTerminates.obj_cps_le n h = true) (DecodeTerminates.bm_parsed lines).
+Proof. exact DecodeTerminatesLines.parsed_cps_le. Qed.
+Print Assumptions C01_parsed_control_point_count.
+
+Theorem C01_decode_terminates_bounded_lines :
+  forall lm, ThetaLoop.atan2_in_range lm -> forall lines, DecodeTerminatesLines.lines_fit 16 lines = true ->
+  (exists hv, decode_hit_objects (dist_of_curve lm) lines = Done hv) /\
+  (exists bv, decode_beatmap (dist_of_curve lm) lines = Done bv).
+Proof. exact DecodeTerminatesLines.decode_terminates_lines. Qed.
+Print Assumptions C01_decode_terminates_bounded_lines.
+
+(* with LAYER 1: every reader state (bytes, buffered part, schedule of chunks
+   / Interrupted / failures) that delivers such lines, and from_bytes on an
+   in-memory buffer (whose lines are those the bytes determine,
+   [C01_from_bytes_lines]): a value -- no Err, no panic, not out of fuel *)
+Theorem C01_decode_reader_terminates_bounded :
+  forall lm, ThetaLoop.atan2_in_range lm -> forall r lines,
+  read_all_lines r = IoDone lines -> DecodeTerminatesLines.lines_fit 16 lines = true ->
+  (exists v, io_bind (read_all_lines r)
+               (fun ls => io_of_outcome (decode_hit_objects (dist_of_curve lm) ls)) = IoDone v) /\
+  (exists v, io_bind (read_all_lines r)
+               (fun ls => io_of_outcome (decode_beatmap (dist_of_curve lm) ls)) = IoDone v).
+Proof. exact DecodeTerminatesLines.decode_reader_terminates_lines. Qed.
+Print Assumptions C01_decode_reader_terminates_bounded.
+
+Theorem C01_decode_bytes_terminates_bounded :
+  forall lm (b : bytes), ThetaLoop.atan2_in_range lm ->
+  exists lines, read_all_lines (mk_reader b []) = IoDone lines /\
+  (DecodeTerminatesLines.lines_fit 16 lines = true ->
+   (exists v, decode_bytes_hit_objects (dist_of_curve lm) b = IoDone v) /\
+   (exists v, decode_bytes_beatmap (dist_of_curve lm) b = IoDone v)) /\
+  (Forall (fun h => DecodeTerminates.obj_fits_some h = true) (DecodeTerminates.bm_parsed lines) ->
+   exists v, decode_bytes_beatmap (dist_of_curve lm) b = IoDone v) /\
+  (Forall (fun h => DecodeTerminates.obj_fits_some h = true) (DecodeTerminates.ho_parsed lines) ->
+   exists v, decode_bytes_hit_objects (dist_of_curve lm) b = IoDone v).
+Proof.
+  intros lm b Hlm.
+  destruct (DecodeTerminatesLines.decode_bytes_terminates_lines lm Hlm b) as (lines & E & H).
+  destruct (DecodeTerminates.decode_bytes_fits lm Hlm b) as (lines' & E' & H').
+  rewrite E in E'. injection E' as <-. exists lines. exact (conj E (conj H H')).
+Qed.
+Print Assumptions C01_decode_bytes_terminates_bounded.
+
+(* not vacuous, at the limits.  A file with the slider line
+     -131072,-131072,0,2,0,B|131072:131072|-131072:131072|131072:-131072|...(15 points),1,100
+   -- head at the coordinate limit, 16 control points, the farthest exactly
+   2^18 from the head in both coordinates -- satisfies the input condition and
+   the state condition (E = 18, no smaller E), so it decodes to a value for
+   every libm with atan2 in range; also as bytes through the reader *)
+Example C01_decode_terminates_example_16 :
+  DecodeTerminatesLines.lines_fit 16 DecodeTerminatesExamples.ex16_lines = true /\
+  DecodeTerminatesLines.lines_fit 15 DecodeTerminatesExamples.ex16_lines = false /\
+  DecodeTerminatesExamples.parsed_coords (DecodeTerminates.bm_parsed DecodeTerminatesExamples.ex16_lines)
+  = [[(0, 0); (262144, 262144); (0, 262144); (262144, 0); (262144, 262144); (0, 262144); (262144, 0);
+      (262144, 262144); (0, 262144); (262144, 0); (262144, 262144); (0, 262144); (262144, 0);
+      (262144, 262144); (0, 262144); (262144, 0)]] /\
+  map (DecodeTerminates.obj_cps_le 16) (DecodeTerminates.bm_parsed DecodeTerminatesExamples.ex16_lines) = [true] /\
+  map (DecodeTerminates.obj_fits 18) (DecodeTerminates.bm_parsed DecodeTerminatesExamples.ex16_lines) = [true] /\
+  map (DecodeTerminates.obj_fits 17) (DecodeTerminates.bm_parsed DecodeTerminatesExamples.ex16_lines) = [false] /\
+  read_all_lines (mk_reader DecodeTerminatesExamples.ex16_bytes []) = IoDone DecodeTerminatesExamples.ex16_lines /\
+  (forall lm, ThetaLoop.atan2_in_range lm ->
+     (exists hv, decode_hit_objects (dist_of_curve lm) DecodeTerminatesExamples.ex16_lines = Done hv) /\
+     (exists bv, decode_beatmap (dist_of_curve lm) DecodeTerminatesExamples.ex16_lines = Done bv) /\
+     (exists v, decode_bytes_beatmap (dist_of_curve lm) DecodeTerminatesExamples.ex16_bytes = IoDone v)).
+Proof.
+  destruct DecodeTerminatesExamples.ex16_lines_fit as [L16 L15].
+  destruct DecodeTerminatesExamples.ex16_parsed as (P1 & P2 & _ & P4 & P5 & _).
+  repeat (split; [assumption|]). split; [exact DecodeTerminatesExamples.ex16_bytes_lines|].
+  intros lm Hlm. destruct (DecodeTerminatesExamples.ex16_decodes lm Hlm) as [H1 H2].
+  destruct (DecodeTerminatesExamples.ex16_bytes_decode lm Hlm) as [_ H3].
+  exact (conj H1 (conj H2 H3)).
+Qed.
+
+(* a slider of 24 control points inside +-4096 of its head: outside the
+   16-point rule, inside the graded one (24 * 2^12 <= 2^22) *)
+Example C01_decode_terminates_example_graded :
+  map (DecodeTerminates.obj_cps_le 16) (DecodeTerminates.bm_parsed DecodeTerminatesExamples.ex24_lines) = [false] /\
+  map (DecodeTerminates.obj_fits 12) (DecodeTerminates.bm_parsed DecodeTerminatesExamples.ex24_lines) = [true] /\
+  map DecodeTerminates.obj_fits_some (DecodeTerminates.bm_parsed DecodeTerminatesExamples.ex24_lines) = [true] /\
+  (forall lm, ThetaLoop.atan2_in_range lm ->
+     (exists hv, decode_hit_objects (dist_of_curve lm) DecodeTerminatesExamples.ex24_lines = Done hv) /\
+     (exists bv, decode_beatmap (dist_of_curve lm) DecodeTerminatesExamples.ex24_lines = Done bv)).
+Proof.
+  destruct DecodeTerminatesExamples.ex24_parsed as (_ & _ & P3 & P4 & _ & P6 & _).
+  repeat (split; [assumption|]). exact DecodeTerminatesExamples.ex24_decodes.
+Qed.
+
+(* the hypothesis on atan2 is satisfiable (and needed: [C01_theta_loop_hostile_atan2]) *)
+Example C01_atan2_in_range_inhabited :
+  ThetaLoop.atan2_in_range (Curve.mkLibm (fun x => x) (fun x => x) (fun _ _ => D.zero) (fun x => x)).
+Proof. exact ThetaLoop.atan2_in_range_inhabited. Qed.
+
+(* ------------------------------------------------------------------ *)
 (* LAYER 4: re-encoding                                                 *)
 (* ------------------------------------------------------------------ *)
 (* "Re-encoding any map obtained this way also completes and yields valid
@@ -1229,6 +1469,39 @@ Theorem C01_encode_completes_taiko_mania :
   exists toks, encode_tokens (DrvEnc.dist_real lm) (events_with chk fuel tf) bv = Done toks.
 Proof. exact encode_completes_taiko_mania. Qed.
 Print Assumptions C01_encode_completes_taiko_mania.
+
+(* LAYERS 2+3+4, "hang": decode, then re-encode.  For every list of lines in
+   which every parsed slider has at most 16 control points (resp. fits, graded),
+   atan2 in range, encoder fuels above the bounds of
+   [C01_encode_never_out_of_fuel]: the decode returns a map, and the encoder
+   does not run out of fuel on it -- it returns its token stream, or panics
+   with the D18 panic inside the class of (4b). *)
+From RM Require Proofs.DecodeTerminatesEncode.
+
+Theorem C01_decode_encode_terminates_bounded :
+  forall lm, ThetaLoop.atan2_in_range lm ->
+  forall chk fuel tf lines,
+  Forall (fun h => DecodeTerminates.obj_cps_le 16 h = true) (DecodeTerminates.bm_parsed lines) ->
+  100000 * 2 ^ 25 + 1 < Z.of_nat tf -> 3 + 9000 * (100000 * 2 ^ 25 + 1) < Z.of_nat fuel ->
+  exists bv, decode_beatmap (dist_of_curve lm) lines = Done bv /\
+    encode_tokens (DrvEnc.dist_real lm) (events_with chk fuel tf) bv <> OutOfFuel /\
+    ((exists toks, encode_tokens (DrvEnc.dist_real lm) (events_with chk fuel tf) bv = Done toks) \/
+     (neg_dist_class lm bv = true /\
+      exists w, encode_tokens (DrvEnc.dist_real lm) (events_with chk fuel tf) bv = Panic w)).
+Proof. exact DecodeTerminatesEncode.decode_encode_16. Qed.
+Print Assumptions C01_decode_encode_terminates_bounded.
+
+Theorem C01_decode_encode_terminates_graded :
+  forall lm, ThetaLoop.atan2_in_range lm ->
+  forall chk fuel tf lines,
+  Forall (fun h => DecodeTerminates.obj_fits_some h = true) (DecodeTerminates.bm_parsed lines) ->
+  100000 * 2 ^ 25 + 1 < Z.of_nat tf -> 3 + 9000 * (100000 * 2 ^ 25 + 1) < Z.of_nat fuel ->
+  exists bv, decode_beatmap (dist_of_curve lm) lines = Done bv /\
+    ((exists toks, encode_tokens (DrvEnc.dist_real lm) (events_with chk fuel tf) bv = Done toks) \/
+     (neg_dist_class lm bv = true /\
+      exists w, encode_tokens (DrvEnc.dist_real lm) (events_with chk fuel tf) bv = Panic w)).
+Proof. exact DecodeTerminatesEncode.decode_encode_fits. Qed.
+Print Assumptions C01_decode_encode_terminates_graded.
 
 (* ---------- (4d) valid UTF-8 ---------- *)
 
